@@ -219,6 +219,16 @@ def check_amp(case, rec):
 @st.composite
 def gen_wave(draw, tier="quick"):
     spec, sampling, path, hankel = draw(_law_model(tier))
+    # unit of length: correlation lengths of order 10^e (wave numbers of order 10^-e)
+    lexp = draw(st.sampled_from([0, 0, 0, 0, 9, -9, 12, -12]))
+    if hankel:
+        # numerical spectra go through the third-party hankel package, which decides k == 0 with an absolute tolerance of its own
+        lexp = 0
+    if lexp:
+        spec["len_scale"] = float(spec["len_scale"] * 10.0**lexp)
+        if spec["opt"].get("len_low"):
+            spec["opt"]["len_low"] = float(spec["opt"]["len_low"] * 10.0**lexp)
+        spec["len_unit_exp"] = lexp
     N = draw(st.sampled_from([100, 400, 1000]))
     case = {
         "spec": spec, "sampling": sampling, "mode_no": N,
@@ -289,6 +299,8 @@ def check_wave(case, rec):
     path = _sampling_path(cls, dim, case["sampling"])
     tags = dict(gens.spec_tags(spec), sampling=path, spectrum="hankel" if hankel else "analytic", mode_no=case["mode_no"])
     rec.label(cls, f"dim{dim}", path)
+    if spec.get("len_unit_exp"):
+        rec.label(f"len_unit_1e{spec['len_unit_exp']}")
     if _excluded_K1(path, hankel, dim) and not case.get("probe"):
         rec.exclude("K1_mcmc_hankel_dim>=2")
         return
